@@ -72,3 +72,9 @@ PROPS["C08"] = {"units": [
     plain_unit("regress", "pktsched", "^TestRegressC08", overlay="full"),
     rapid_unit("schedules", "pktsched", "^TestC08Schedules$", 1500, 16 * 15000, overlay="full"),
 ]}
+
+PROPS["C18"] = {"units": [
+    plain_unit("regress", "bridge", "^TestRegressC18"),
+    rapid_unit("bridge", "bridge", "^TestC18Bridge$", 1500, 16 * 15000),
+    rapid_unit("dpipe", "bridge", "^TestC18Dpipe$", 5000, 16 * 100000),
+]}
